@@ -542,6 +542,26 @@ pub fn run(args: &Args) -> i32 {
                 same.extend((0..BLOCK).map(|_| (r.below(12) * r.below(12) / 12) as u8));
             }
             directed.push(("treeless".into(), one(same, level, "three blocks, same skewed distribution")));
+            // ... and the same with a later block that brings byte values the kept table has no code for:
+            // one above its maximum, one in a gap below it
+            for variant in 0..3 {
+                let mut v: Vec<u8> = Vec::new();
+                for b in 0..4usize {
+                    let mut block: Vec<u8> = (0..BLOCK).map(|_| 40 + 2 * (r.below(12) * r.below(12) / 12) as u8).collect();
+                    if b >= 1 {
+                        for _ in 0..(1 + variant) {
+                            let i = r.usize(0, BLOCK - 1);
+                            block[i] = match (b + variant) % 3 {
+                                0 => 200,  // above the maximum
+                                1 => 41,   // in a gap
+                                _ => 3,    // below the minimum
+                            };
+                        }
+                    }
+                    v.extend(block);
+                }
+                directed.push(("treeless_new_symbols".into(), one(v, level, "four blocks of one skewed distribution, later blocks add single bytes the kept table cannot code")));
+            }
             // long matches, maximal match length codes, match at the far end of the block
             let mut long = wl::gen(&mut r, Shape::Random, 1000);
             let head = long.clone();
